@@ -44,11 +44,11 @@ type delivery struct {
 // c12world: node B has receivers R (registered name "rname", alias) and Q (the wrong addressee);
 // node A has a sender process configured by the scenario.
 type c12world struct {
-	nw      *NetWorld
-	got     []delivery
-	rpid    gen.PID
-	ralias  gen.Alias
-	qpid    gen.PID
+	nw     *NetWorld
+	got    []delivery
+	rpid   gen.PID
+	ralias gen.Alias
+	qpid   gen.PID
 }
 
 func (c *c12world) receiver(w *World, name string, reg gen.Atom, opts gen.ProcessOptions) gen.PID {
